@@ -897,6 +897,41 @@ pub fn binary_roundtrip(plan: &Plan, how: How, c: Compression, mode: FloatMode) 
                 }
                 _ => entry_points.push("from_reader fails when the reader delivers 7 bytes per call although it accepts the same bytes from a slice".to_owned()),
             }
+            // one `Serializer` and one `Deserializer` value per compression mode live as long as the
+            // worker process and see every case it runs: what they give must not depend on that
+            thread_local! {
+                static SHARED_SER: [rbx_binary::Serializer<'static>; 3] = [
+                    rbx_binary::Serializer::new().compression_type(rbx_binary::CompressionType::Lz4),
+                    rbx_binary::Serializer::new().compression_type(rbx_binary::CompressionType::None),
+                    rbx_binary::Serializer::new().compression_type(rbx_binary::CompressionType::Zstd),
+                ];
+                static SHARED_DE: rbx_binary::Deserializer<'static> = rbx_binary::Deserializer::new();
+            }
+            let which = match c {
+                Compression::Lz4 => 0,
+                Compression::None => 1,
+                Compression::Zstd => 2,
+            };
+            let reused = crate::evidence::guarded(|| {
+                let mut out = Vec::new();
+                SHARED_SER.with(|s| s[which].serialize(&mut out, &r.dom, &roots)).map(|_| out).map_err(|e| e.to_string())
+            });
+            match reused {
+                Ok(Ok(b2)) => {
+                    if b2 != bytes {
+                        entry_points.push("a Serializer value that has written other DOMs before writes different bytes than a fresh one".to_owned());
+                    }
+                }
+                _ => entry_points.push("a Serializer value that has written other DOMs before fails where a fresh one succeeds".to_owned()),
+            }
+            match crate::evidence::guarded(|| SHARED_DE.with(|d| d.deserialize(bytes.as_slice()).map_err(|e| e.to_string()))) {
+                Ok(Ok(d3)) => {
+                    if canon_forest(&d3, d3.root().children(), mode) != forest {
+                        entry_points.push("a Deserializer value that has read other files before decodes the same bytes differently than a fresh one".to_owned());
+                    }
+                }
+                _ => entry_points.push("a Deserializer value that has read other files before fails on bytes a fresh one accepts".to_owned()),
+            }
             if c == Compression::Lz4 {
                 let conv = crate::evidence::guarded(|| {
                     let mut out = Vec::new();
